@@ -191,13 +191,28 @@ func suiteDedup(e *vh.Env) {
 		default:
 			universe = 2 + rng.Intn(40)
 		}
-		id := func(k int) string { return fmt.Sprintf("r%d-%d", i, k) }
+		// ID shape: short tokens, or 64 hex digits as the stand-alone proxy's sha256 IDs (a full window of those makes a
+		// pending-list reply of about 67 KB)
+		longIDs := rng.Intn(3) == 0 || i%20 == 0
+		if i%20 == 0 {
+			universe = requestCacheLimit
+		}
+		id := func(k int) string {
+			if longIDs {
+				return fmt.Sprintf("%032x%032x", i+1, k)
+			}
+			return fmt.Sprintf("r%d-%d", i, k)
+		}
 		repeats := false
 		seen := map[string]bool{}
 		replies := 1 + rng.Intn(8)
 		for r := 0; r < replies; r++ {
 			var ids []string
-			switch rng.Intn(5) {
+			shape := rng.Intn(5)
+			if i%20 == 0 && r == 0 {
+				shape = 0
+			}
+			switch shape {
 			case 0: // a whole window in order
 				for k := 0; k < universe; k++ {
 					ids = append(ids, id(k))
@@ -321,7 +336,7 @@ func suiteDedup(e *vh.Env) {
 		sort.Strings(spawned)
 		e.Op("spawned", strings.Join(spawned, " "))
 		e.Eval(fmt.Sprint(i), repeats)
-		e.Count(fmt.Sprintf("universe<=cap:%v repeats:%v", universe <= requestCacheLimit, repeats))
+		e.Count(fmt.Sprintf("universe<=cap:%v repeats:%v long-ids:%v", universe <= requestCacheLimit, repeats, longIDs))
 		if i < 3 {
 			e.Sample(map[string]interface{}{"case": i, "universe": universe, "list_replies": len(fp.lists), "first_reply": truncate(fp.lists[0], 6), "repeats": repeats})
 		}
